@@ -4,6 +4,7 @@ import (
 	"crypto/sha256"
 	"encoding/hex"
 	"fmt"
+	"sync"
 
 	"github.com/ipfs/go-cid"
 	mh "github.com/multiformats/go-multihash"
@@ -37,13 +38,17 @@ func xbytes(seed uint64, size int) []byte {
 }
 
 var blkCache = map[BlkSpec]Blk{}
+var blkCacheMu sync.Mutex
 
 // MakeBlock builds the block a spec denotes. It panics on an unknown kind
 // (a trace naming one is corrupt).
 func MakeBlock(s BlkSpec) Blk {
+	blkCacheMu.Lock()
 	if b, ok := blkCache[s]; ok {
+		blkCacheMu.Unlock()
 		return b
 	}
+	blkCacheMu.Unlock()
 	x := xbytes(s.Seed, s.Size)
 	var c cid.Cid
 	data := x
@@ -87,7 +92,9 @@ func MakeBlock(s BlkSpec) Blk {
 		panic("unknown block kind " + s.Kind)
 	}
 	b := Blk{Spec: s, Cid: c, Data: data}
+	blkCacheMu.Lock()
 	blkCache[s] = b
+	blkCacheMu.Unlock()
 	return b
 }
 
